@@ -5,6 +5,7 @@ CONSTANTS
   Ids <- Ids4_5
   IdPath <- U4
   THs = {1, 2, 3}
+  LGs = {1, 2}
   MaxHead = 2
   Peers <- LR
   Legacy <- NoPeer
@@ -13,6 +14,7 @@ CONSTANTS
   FIX_SET_COUNT = TRUE
   FIX_MERGE_UP = TRUE
   FIX_NIL_HASH = TRUE
+  DEV_SAME_COUNT_EQUAL = FALSE
 INVARIANT ObsCanonical
 INVARIANT ObsDiffExact
 INVARIANT InSync
